@@ -48,6 +48,8 @@ fixed("FX-C06-02", "C06", "3dc028a", "Path.Get / Path.Unmarshal panicked (reflec
 fixed("FX-C06-03", "C06", "9c62834", "Unmarshal({\"\\.b\":1}, &struct{}{}) panicked with index out of range in decodeKeyByBitmapUint8 (invalid escape in a key kept all lookup candidates)")
 fixed("FX-C05-01", "C05", "9c62834", "an invalid escape sequence in an object key of a struct destination was accepted")
 fixed("FX-C09-04", "C09", "57be1d1", "an escaped object key straddling a read boundary made Decoder fail (invalid character u as escaped char / expected colon after object key) or drop the member")
+fixed("FX-C09-07", "C09", "9207e74", "a number that is the value of an unknown struct member with whitespace before it and a refill boundary inside it made Decoder fail with 'expected comma after object element' (was KF-C09-07): {\"p\":\"xx..x\",\"unknown\":  256} at 511 bytes")
+fixed("FX-C09-02", "C09", "57be1d1", "refill inside an escaped struct key lost the scanner state (was KF-C09-02; completed by b177bea and 17431c1)")
 fixed("FX-C15-01", "C15", "57be1d1", "Decoder fed 5-byte chunks failed on fully \\u-escaped keys")
 
 fixed("FX-C06-04", "C06", "0243e9f", "Compact/Indent of a 100000-deep tower: fatal out of memory / stack overflow (no nesting limit)")
@@ -380,9 +382,6 @@ for n, rx, same in (("01", "stream:nul-skipped", "KF-C05-05"), ("02", "stream:li
           "Decoder accepts an invalid text that Unmarshal rejects; the acceptance is explained by the stream lenience '%s' (%s)" % (rx, same), "see " + same, "see " + same, "see " + same)
 known("KF-C09-01", "C09", SB, r"u?int(8|16|32|64|ptr)?", r"verdict:stream-ok-buffer-err", r"valid-doc:[a-z-]+:buffer-error=invalid character after top-level value:u?int(8|16|32|64|ptr)?:number",
       'NewDecoder("16.0").Decode(&uint8) = nil, 16 (Unmarshal: error)', "see KF-C16-03", "see KF-C16-03", "see KF-C16-03")
-known("KF-C09-02", "C09", SB, None, r"(verdict:stream-err-buffer-ok|value-differs:.+)", r"valid-doc:[a-z-]+:[a-z/-]+:doc-has-u-escapes(:.*)?",
-      '{"name":"","\\u0047\\u0067":[32768]} fed in 2-byte pieces decodes Gg as [0] or fails with "invalid character u as escaped char"', "internal/decoder/struct.go decodeKeyByBitmap*Stream / decodeKeyCharByUnicodeRuneStream: state is lost when the buffer is refilled inside an escaped object key",
-      "any other stream/buffer disagreement on valid documents that contain \\u escapes", "stream key scanner needs restartable escape decoding")
 known("KF-C09-03", "C09", "stream-seq", "InputOffset", r"offset-differs", r"(string|object|array):escapes=true",
       'after decoding "helloAb\\f" from a stream InputOffset is 10, not 11', "internal/decoder/string.go: escapes are resolved in place in the stream buffer and the removed bytes are not added to the offset",
       "other offset differences after documents containing escapes", "offset bookkeeping of in-place unescaping")
@@ -397,9 +396,6 @@ known("KF-C09-05", "C09", SB, None, r"value-differs:.+", r"valid-doc:[a-z-]+:[a-
       'a key containing the byte 0xff is stored as U+FFFD by Decoder and raw by Unmarshal', "internal/decoder/string.go: only the stream string scanner replaces invalid UTF-8", "other value differences on documents that are not valid UTF-8", "the two scanners differ by design here")
 known("KF-C09-06", "C09", SB, None, r"verdict:stream-ok-buffer-err", r"valid-doc:[a-z-]+:buffer-error=.*:doc-has-u-escapes",
       'a struct member spelled with an escaped key and a wrong-kind value is silently skipped by Decoder where Unmarshal reports the type error', "see KF-C09-02 (escaped keys in stream mode)", "see KF-C09-02", "see KF-C09-02")
-known("KF-C09-07", "C09", SB, r"(struct|arrayN|slice|ptr\d>.*|map\[.*)", r"verdict:stream-err-buffer-ok", r"valid-doc:[a-z-]+:[a-z/-]+:expected comma after object element",
-      'a number that is the value of an unknown struct member and ends exactly at a refill boundary makes Decoder fail with "expected comma after object element"', "internal/decoder/stream.go skipValue number branch: after a refill the byte following the number is stepped over",
-      "other stream-only errors with this message on typed destinations", "stream skip scanner")
 
 known("KF-C09-R12", "C09", SB, None, r"verdict:stream-ok-buffer-err", r"relax=stream:nul-skipped-unmodelled",
       'Decoder accepts "{\\n\\x00a.b\\":{}}" (NUL where the opening quote of a key should be)', "see KF-C05-05: NUL bytes are stepped over by several stream scanners in ways the recogniser's relaxation does not reproduce exactly", "other stream-only acceptances of texts with an embedded NUL", "sentinel design")
